@@ -24,7 +24,7 @@ EXTENDS Naturals, Sequences, FiniteSets, TLC
 
 CONSTANTS BATCH,      \* stride of repair() (36 in the code)
           CKPT,       \* length of a checkpointed chunk (1000 in the code)
-          CKS,        \* starts of the checkpointed chunks (non-empty)
+          CKS,        \* starts of the checkpointed chunks
           MAXLEN,     \* longest chain
           MAXV,       \* longest batch without a flawed header
           MAXB,       \* longest batch with a flawed header
@@ -47,8 +47,9 @@ Min(a, b) == IF a < b THEN a ELSE b
 Max(a, b) == IF a > b THEN a ELSE b
 SetMin(S) == CHOOSE x \in S : \A y \in S : x <= y
 SetMax(S) == CHOOSE x \in S : \A y \in S : x >= y
-MaxCK == SetMax(CKS)
-RepairStart == MaxCK + CKPT                       \* max(checkpoints) + 1000
+HasCK == CKS # {}
+MaxCK == SetMax(CKS)                               \* only used when HasCK
+RepairStart == IF HasCK THEN MaxCK + CKPT ELSE CKPT - 1       \* max(checkpoints.keys() or [-1]) + 1000
 
 \* ------------------------------------------------------------------ the abstract miner
 GEN == 100                                         \* the configured genesis hash
@@ -113,7 +114,8 @@ Connect(start, batch, tag) ==
 \* the batches a server may supply: a run of the main chain or of the alternative chain, optionally with one flawed header
 Run(kind, f, start, n) == [i \in 1..n |-> IF kind = "A" THEN A(start + i - 1) ELSE B(f, start + i - 1)]
 ConnectSome ==
-  \E start \in 0..Len(store), n \in 1..Max(MAXB, MAXV) :
+  /\ phase = "open" /\ nconn < MAXCONN
+  /\ \E start \in 0..Len(store), n \in 1..Max(MAXB, MAXV) :
     \/ /\ fork' = fork
        /\ \/ n <= MAXV /\ Connect(start, Run("A", 0, start, n), <<"A", 0, n, 0, "none">>)
           \/ \E p \in 1..n, flaw \in FLAWS :
@@ -178,8 +180,9 @@ Open ==
   /\ LET n == IF fpart THEN Repair(file, 0) ELSE Repair(file, RepairStart)
          kept == Prefix(file, n)
          part == fpart /\ n = Len(file)
-         s2 == IF n < MaxCK + 1 THEN WriteAt(kept, part, MaxCK, [i \in 1..CKPT |-> Z]) ELSE kept
-     IN /\ store' = s2 /\ spart' = (part /\ n >= MaxCK + 1)
+         pad == HasCK /\ n < MaxCK + 1
+         s2 == IF pad THEN WriteAt(kept, part, MaxCK, [i \in 1..CKPT |-> Z]) ELSE kept
+     IN /\ store' = s2 /\ spart' = (part /\ ~pad)
         /\ loaded' = n
         /\ missing' = {c \in CKS : Chunk(s2, c) # Canon(c)}
         /\ lastEnd' = Min(lastEnd, n)
@@ -205,7 +208,12 @@ Spec == Init /\ [][Next]_vars
 
 \* ------------------------------------------------------------------ the property
 \* from genesis to the end of the most recently connected batch every header links, has the demanded bits, meets its target
-ChainValid == phase = "open" => \A h \in 0..(lastEnd - 1) : h < Len(store) /\ ValidIn(store, h)
+\* (checkpointed chunks are filled on demand, in any order: heights inside a chunk flagged as missing hold placeholders, and the
+\*  first header of a checkpointed chunk that is present stands on a placeholder while the chunk below it is missing)
+ChunkOf(h) == (h \div CKPT) * CKPT
+Excused(h) == \/ ChunkOf(h) \in missing
+              \/ h > 0 /\ ChunkOf(h - 1) \in missing /\ ChunkOf(h) \in CKS \ missing
+ChainValid == phase = "open" => \A h \in 0..(lastEnd - 1) : h < Len(store) /\ (ValidIn(store, h) \/ Excused(h))
 \* connect: a fully valid batch is stored whole; otherwise nothing at or beyond the first invalid header
 ConnectLaw == [][act'[1] = "Connect" =>
                    LET start == act'[2]  fi == act'[4]  n == act'[3][3] IN
@@ -230,7 +238,7 @@ W_ForkStored == ~(phase = "open" /\ fork > 0 /\ lastEnd > fork /\ Len(store) > f
 W_Rejected == ~(act[1] = "Connect" /\ act[4] > 1 /\ ret = 0)
 W_CutRepaired == ~(fresh /\ firstBad <= Len(stored) /\ loaded >= RepairStart /\ loaded < Len(stored))
 W_DamageDropped == ~(fresh /\ hurt[2] = 1 /\ loaded > RepairStart /\ loaded + 2 = firstBad)
-W_Placeholders == ~(fresh /\ Len(store) > loaded /\ loaded > 0)
+W_Placeholders == ~(fresh /\ Len(store) > loaded /\ Len(stored) > 0)
 W_Fetched == ~(act[1] = "FetchChunk" /\ act[3] /\ missing = {})
 W_StaleTail == ~(phase = "open" /\ lastEnd < Len(store) /\ lastEnd > 0 /\ ~ValidIn(store, lastEnd))
 =============================================================================
